@@ -82,6 +82,14 @@ def run(oc, tier, seed, model_available, escalate):
         tree = {}
         for nm in rng.sample(["a.bin", "sub/b.txt", "sub/deep/c", "z.dat"], rng.randint(2, 4)):
             tree[nm] = bytes(rng.randrange(256) for _ in range(rng.choice([0, 1, 100, 700])))
+        if i % 2 == 1:
+            # directed: a file whose whole content equals the last (partial) block of the file walked just before it - the same bytes are
+            # then encoded twice in a row at two different rates by the one variable-rate codec object of the whole-file tool
+            import ecc_scen as es_
+            big = bytes(rng.randrange(256) for _ in range(P0.size + rng.choice([700, 900, 1300]) + rng.randint(1, 40)))
+            lay = es_.layout(P0, len(big))
+            if lay and lay[-1][1] < P0.k_of_rate(P0.r1):
+                tree = {"a1.bin": big, "a2.bin": big[lay[-1][0]:]}
         roots = {"orig": os.path.join(d, "t"), "moved": os.path.join(d, "a much longer directory name", "t_moved"), "touched": os.path.join(d, "u")}
         for r in roots.values():
             eu.write_tree(r, tree)
@@ -98,6 +106,10 @@ def run(oc, tier, seed, model_available, escalate):
             for rn, r in roots.items():
                 P = eu.Params(**{**P0.describe(), "algo": algo})
                 ecc = os.path.join(d, "ecc_%d_%s.txt" % (algo, rn))
+                if rn == "moved" and algo == 3:
+                    # the ecc file stored next to the folder and named after the beginning of its name (its path is then a string prefix of
+                    # every file path): a relocation like any other
+                    ecc = os.path.join(d, "a much longer directory name", "t_mo")
                 g = eu.generate(P, r, ecc)
                 if g != "0":
                     oc.violations.append({"input": {"params": P.describe(), "tree": sorted(tree)}, "what": "generation failed: %s" % g})
